@@ -126,6 +126,10 @@ def classify(rec, extra_events=()):
 
 
 def pair_unrelated(report, scen, rng, evs, f):
+    if len({e["id"] for e in evs}) != len(evs):
+        # (two events under one id: which of them is stored depends on the loading order, which this comparison varies)
+        report.count("pairs_unrelated_skipped_store_with_repeated_ids")
+        return
     scen.load(evs)
     base = ask_both(scen, f)
     q = scen.kv.validate(dict(f))
@@ -243,7 +247,12 @@ def multiindex_store(rng):
     for i in range(rng.randint(3, 9)):
         r = rng.random()
         mine = rng.sample(vals, 2) if r < 0.45 else [rng.choice(vals)] if r < 0.85 else [rng.choice(["q", "xx"])]
-        evs.append({"id": gen.mkid(rng), "pubkey": rng.choice(authors[:3]), "created_at": gen.T0 + rng.choice([0, 1, 2, 50, 100, 255, 256]),
+        eid = gen.mkid(rng)
+        while any(x["id"] == eid for x in evs):
+            # the id generator favours boundary patterns (00…0, ff…f); two different events never share an id (it is the hash of
+            # the contents), and with a shared id only the first one loaded is stored — the store would depend on the loading order
+            eid = rng.randbytes(32).hex()
+        evs.append({"id": eid, "pubkey": rng.choice(authors[:3]), "created_at": gen.T0 + rng.choice([0, 1, 2, 50, 100, 255, 256]),
                     "kind": rng.choice(kinds), "tags": [["t", v] for v in mine], "content": "", "sig": "00" * 64})
     f = {"authors": authors[:rng.choice([3, 4])], "kinds": kinds, "#t": vals}
     return evs, f
